@@ -103,6 +103,8 @@ struct HostState {
     /// what the scenario put into the store / into the host before the agent started
     initial_files: HashMap<String, Vec<u8>>,
     initial_latched: Option<usize>,
+    /// which of the slot's listeners the child of the current run talks to
+    listener: usize,
     /// keyIncarnationId of the status document (an optional field)
     status_incarnation: Option<u32>,
 }
@@ -117,11 +119,15 @@ fn key_json(guid: &str, secret: &str) -> Value {
     json!({"authorizationScheme": "Azure-HMAC-SHA256", "guid": guid, "issued": "2026-01-01T00:00:00Z", "key": secret, "incarnationId": 1})
 }
 
-fn start_host(port: u16, st: Arc<Mutex<HostState>>) -> MockHost {
+fn start_host(port: u16, listener: usize, st: Arc<Mutex<HostState>>) -> MockHost {
     let h = MockHost::start(&format!("ws{port}"), &format!("168.63.129.16:{port}")).unwrap_or_else(|e| vcommon::result::machinery(&format!("bind 168.63.129.16:{port}: {e}")));
     h.set_responder(Arc::new(move |m: &Msg, _c, _i| {
         let t = m.target().to_string();
         let mut s = st.lock().unwrap();
+        if s.listener != listener {
+            // a request the killed child of an earlier run still had in flight: every run gets its own listener
+            return Action::Reset;
+        }
         if t.starts_with("/secure-channel/status") {
             match s.fault {
                 Some(Fault::Status500) => {
@@ -219,17 +225,25 @@ fn start_host(port: u16, st: Arc<Mutex<HostState>>) -> MockHost {
 }
 
 struct Slot {
-    port: u16,
+    ports: [u16; 4],
+    active: std::sync::atomic::AtomicUsize,
     key_dir: String,
     st: Arc<Mutex<HostState>>,
-    _host: MockHost,
+    _hosts: Vec<MockHost>,
+}
+impl Slot {
+    fn port(&self) -> u16 {
+        self.ports[self.active.load(std::sync::atomic::Ordering::SeqCst)]
+    }
 }
 
 fn prepare(slot: &Slot, sc: Scenario, fault: Fault, tag: u64) {
     let _ = std::fs::remove_dir_all(&slot.key_dir);
     let _ = std::fs::remove_dir_all(format!("{}-logs", slot.key_dir));
+    let listener = (slot.active.load(std::sync::atomic::Ordering::SeqCst) + 1) % slot.ports.len();
+    slot.active.store(listener, std::sync::atomic::Ordering::SeqCst);
     let mut s = slot.st.lock().unwrap();
-    *s = HostState { key_dir: slot.key_dir.clone(), tag, fault: if fault == Fault::None { None } else { Some(fault) }, ..Default::default() };
+    *s = HostState { key_dir: slot.key_dir.clone(), tag, listener, fault: if fault == Fault::None { None } else { Some(fault) }, ..Default::default() };
     let mk = |s: &mut HostState| -> usize {
         let i = s.issued.len();
         s.issued.push((guid_of(tag, i), secret_of(tag, i)));
@@ -306,18 +320,30 @@ fn run_child(slot: &Slot, kill_at: Option<(&str, u64)>, trace_to: Option<&str>) 
     } else {
         cmd = std::process::Command::new(exe);
     }
-    cmd.env("VERIF_C08_CHILD", "1").env("VERIF_C08_PORT", slot.port.to_string()).env("VERIF_C08_KEYDIR", &slot.key_dir).stdin(std::process::Stdio::null()).stdout(std::process::Stdio::null()).stderr(std::process::Stdio::null());
+    cmd.env("VERIF_C08_CHILD", "1").env("VERIF_C08_PORT", slot.port().to_string()).env("VERIF_C08_KEYDIR", &slot.key_dir).stdin(std::process::Stdio::null()).stdout(std::process::Stdio::null()).stderr(std::process::Stdio::null());
+    // own process group: when the run is given up (or strace dies first) nothing of it may stay behind and keep
+    // talking to the slot's mock host during later runs (a tracee survives the death of its tracer)
+    {
+        use std::os::unix::process::CommandExt;
+        cmd.process_group(0);
+    }
     let mut child = cmd.spawn().unwrap_or_else(|e| vcommon::result::machinery(&format!("spawn: {e}")));
+    let pgid = child.id() as i32;
+    let reap_group = move || unsafe {
+        libc::kill(-pgid, libc::SIGKILL);
+    };
     let t = Instant::now();
     loop {
         match child.try_wait().unwrap() {
             Some(st) => {
                 use std::os::unix::process::ExitStatusExt;
                 let killed = st.signal() == Some(9) || st.code() == Some(137);
+                reap_group();
                 return (st.code(), killed);
             }
             None => {
                 if t.elapsed() > Duration::from_secs(25) {
+                    reap_group();
                     let _ = child.kill();
                     let _ = child.wait();
                     return (Some(99), false);
@@ -407,8 +433,9 @@ fn main() {
     let slots: Vec<Arc<Slot>> = (0..nslots)
         .map(|i| {
             let st = Arc::new(Mutex::new(HostState::default()));
-            let port = 8100 + i as u16;
-            Arc::new(Slot { port, key_dir: format!("{base}/keys{i}"), st: st.clone(), _host: start_host(port, st) })
+            let ports = [8100 + i as u16, 8200 + i as u16, 8300 + i as u16, 8400 + i as u16];
+            let hosts = ports.iter().enumerate().map(|(j, p)| start_host(*p, j, st.clone())).collect();
+            Arc::new(Slot { ports, active: Default::default(), key_dir: format!("{base}/keys{i}"), st: st.clone(), _hosts: hosts })
         })
         .collect();
 
@@ -446,7 +473,7 @@ fn main() {
             let (code, _) = run_child(slot, None, Some(&tr));
             evals += 1;
             let txt = std::fs::read_to_string(&tr).unwrap_or_default();
-            let w = window(&txt, slot.port);
+            let w = window(&txt, slot.port());
             let case = json!({"scenario": format!("{:?}", sc), "host_fault": format!("{:?}", f), "kill_at": null});
             if code != Some(0) {
                 res.violation(&format!("no-recovery-without-crash:{:?}:{:?}", sc, f), &format!("without any crash the agent did not reach an accepted signed request (exit {:?}); host: acquires {} attests {} rejected {}", code, slot.st.lock().unwrap().acquires, slot.st.lock().unwrap().attests, slot.st.lock().unwrap().rejected_signed), case.clone());
@@ -525,7 +552,7 @@ fn main() {
                 if killed {
                     // prefix of the (eventfd-free) window that had completed when the process died
                     let txt = std::fs::read_to_string(&tr).unwrap_or_default();
-                    let (first, _, calls) = window(&txt, slot.port);
+                    let (first, _, calls) = window(&txt, slot.port());
                     if first > 0 {
                         let done = calls.iter().skip(first as usize - 1).filter(|c| !c.starts_with('~') && !c.starts_with('?')).count() as u64;
                         if std::env::var("VERIF_C08_DEBUG").is_ok() && sc == Scenario::FreshLatch && f == Fault::None {
